@@ -246,6 +246,33 @@ func (e *emitChecker) matchNLV(pos, term string, obj *vmodel.JVal, v reflect.Val
 	nlv := v.Interface().(vocab.NaturalLanguageValues)
 	plain := obj.Get(term)
 	mp := obj.Get(term + "Map")
+	// a JSON object cannot repeat a member name: of several entries carrying one tag only one can be written; which one the
+	// statement does not say, so any of their texts is accepted under that tag, at the position of the first
+	alt := map[vocab.LangRef][]string{}
+	if len(nlv) > 1 {
+		var uniq vocab.NaturalLanguageValues
+		for _, e := range nlv {
+			if len(e.Value) == 0 || len(e.Ref) == 0 {
+				uniq = append(uniq, e)
+				continue
+			}
+			if _, seen := alt[e.Ref]; !seen {
+				uniq = append(uniq, e)
+			}
+			alt[e.Ref] = append(alt[e.Ref], string(e.Value))
+		}
+		nlv = uniq
+	}
+	matchText := func(m *vmodel.JVal, lv vocab.LangRefValue) {
+		if a := alt[lv.Ref]; len(a) > 1 && m != nil && m.Kind == "string" {
+			for _, t := range a {
+				if m.S == t {
+					return
+				}
+			}
+		}
+		e.matchString(pos, "Content", m, string(lv.Value))
+	}
 	// entries without a text (or without a tag in a multi-entry list) have nothing to say
 	if len(nlv) > 1 {
 		var kept vocab.NaturalLanguageValues
@@ -275,7 +302,7 @@ func (e *emitChecker) matchNLV(pos, term string, obj *vmodel.JVal, v reflect.Val
 					if mp.Members[i].Name != string(lv.Ref) {
 						e.add(pos, "LangRef", "string-altered", fmt.Sprintf("tag %q written as %q", lv.Ref, mp.Members[i].Name))
 					}
-					e.matchString(pos, "Content", mp.Members[i].Val, string(lv.Value))
+					matchText(mp.Members[i].Val, lv)
 				}
 				return
 			}
@@ -316,7 +343,7 @@ func (e *emitChecker) matchNLV(pos, term string, obj *vmodel.JVal, v reflect.Val
 		if utf8.ValidString(string(lv.Ref)) && m.Name != string(lv.Ref) {
 			e.add(pos, "LangRef", "string-altered", fmt.Sprintf("tag %q written as %q", lv.Ref, m.Name))
 		}
-		e.matchString(pos, "Content", m.Val, string(lv.Value))
+		matchText(m.Val, lv)
 	}
 }
 
@@ -437,6 +464,18 @@ func stringPositions() []stringPos {
 					}, "Content"},
 					stringPos{k, name + "<map+two-empty>", func(v reflect.Value, s string) {
 						v.Field(f.Index).Set(reflect.ValueOf(vocab.NaturalLanguageValues{{Ref: "de", Value: nil}, {Ref: "en", Value: vocab.Content(s)}, {Ref: "fr", Value: vocab.Content("")}}))
+					}, "Content"},
+					stringPos{k, name + "<map+untagged-entry>", func(v reflect.Value, s string) {
+						v.Field(f.Index).Set(reflect.ValueOf(vocab.NaturalLanguageValues{{Ref: vocab.NilLangRef, Value: vocab.Content(s)}, {Ref: "en", Value: vocab.Content("tagged")}}))
+					}, "Content"},
+					stringPos{k, name + "<map+untagged-last>", func(v reflect.Value, s string) {
+						v.Field(f.Index).Set(reflect.ValueOf(vocab.NaturalLanguageValues{{Ref: "en", Value: vocab.Content("tagged")}, {Ref: "fr", Value: vocab.Content("aussi")}, {Ref: vocab.NilLangRef, Value: vocab.Content(s)}}))
+					}, "Content"},
+					stringPos{k, name + "<map+repeated-tag>", func(v reflect.Value, s string) {
+						v.Field(f.Index).Set(reflect.ValueOf(vocab.NaturalLanguageValues{{Ref: "en", Value: vocab.Content(s)}, {Ref: "fr", Value: vocab.Content("x")}, {Ref: "en", Value: vocab.Content("second")}}))
+					}, "Content"},
+					stringPos{k, name + "<map+empty-tag>", func(v reflect.Value, s string) {
+						v.Field(f.Index).Set(reflect.ValueOf(vocab.NaturalLanguageValues{{Ref: "", Value: vocab.Content(s)}, {Ref: "en", Value: vocab.Content("x")}, {Ref: "fr", Value: vocab.Content("y")}}))
 					}, "Content"},
 					stringPos{k, name + "<tag>", func(v reflect.Value, s string) {
 						v.Field(f.Index).Set(reflect.ValueOf(vocab.NaturalLanguageValues{{Ref: "en", Value: vocab.Content("plain")}, {Ref: vocab.LangRef(s), Value: vocab.Content("other")}}))
